@@ -9,5 +9,7 @@ GenNext ==
   \/ \E c \in Callers : Create(c) \/ FirstPoll(c) \/ Poll(c)
   \/ \E i \in 1..6, o \in Outs : Complete(i, o)
   \/ (now < MaxTime /\ Advance(1))
+\* transition tour: every transition of the (small) model, printed with the level of its source state
+TourDump == PrintT(<<"EDGE", TLCGet("level"), ToJson([f |-> view, t |-> view', cfg |-> cfg, ev |-> ev'])>>)
 GenPrint == PrintT(<<"GEN", TLCGet("level"), ToJson([cfg |-> cfg, ev |-> ev])>>)
 =============================================================================
